@@ -1,6 +1,7 @@
 package pscmp
 
 import (
+	"fmt"
 	"reflect"
 	"sort"
 	"strconv"
@@ -85,6 +86,37 @@ func (c *canon) value(o postscript.Object, depth int) {
 		c.slice("p", []postscript.Object(o), depth)
 	case postscript.Dict:
 		c.dict(o, depth)
+	case *postscript.CMapInfo:
+		// the code map a CMap dictionary carries under /CodeMap
+		if o == nil {
+			sb.WriteString("cmapinfo:nil ")
+			return
+		}
+		fmt.Fprintf(sb, "cmapinfo{use=%q cs=[", string(o.UseCMap))
+		for _, r := range o.CodeSpaceRanges {
+			fmt.Fprintf(sb, "%x-%x ", r.Low, r.High)
+		}
+		chars := func(tag string, ms []postscript.CharMap) {
+			sb.WriteString("] " + tag + "=[")
+			for _, m := range ms {
+				fmt.Fprintf(sb, "%x>", m.Src)
+				c.value(m.Dst, depth+1)
+			}
+		}
+		ranges := func(tag string, ms []postscript.RangeMap) {
+			sb.WriteString("] " + tag + "=[")
+			for _, m := range ms {
+				fmt.Fprintf(sb, "%x-%x>", m.Low, m.High)
+				c.value(m.Dst, depth+1)
+			}
+		}
+		chars("cidchars", o.CidChars)
+		ranges("cidranges", o.CidRanges)
+		chars("bfchars", o.BfChars)
+		ranges("bfranges", o.BfRanges)
+		chars("notdefchars", o.NotdefChars)
+		ranges("notdefranges", o.NotdefRanges)
+		sb.WriteString("]} ")
 	default:
 		rv := reflect.ValueOf(o)
 		if rv.Kind() == reflect.Func {
